@@ -98,6 +98,7 @@ func main() {
 	nImports, nRanges, nFmt, nFP, nGo, nChan := 0, 0, 0, 0, 0, 0
 	nClock := 0
 	timeFiles := map[*ast.File]bool{}
+	runtimeFiles := map[*ast.File]bool{}
 	for _, p := range pkgs {
 		if !strings.HasPrefix(p.PkgPath, module) || p.PkgPath == simrtPath || strings.HasPrefix(p.PkgPath, simrtPath+"/") {
 			continue
@@ -236,6 +237,17 @@ func main() {
 						return true
 					}
 					pn, ok := p.TypesInfo.Uses[x].(*types.PkgName)
+					if ok && pn.Imported().Path() == "runtime" {
+						// how many CPUs there are is the simulator's to say
+						switch n.Sel.Name {
+						case "NumCPU", "GOMAXPROCS", "Gosched":
+							c.Replace(&ast.SelectorExpr{X: ast.NewIdent("__simrt"), Sel: ast.NewIdent(n.Sel.Name)})
+							needSimrt, changed = true, true
+							nClock++
+							runtimeFiles[f] = true
+						}
+						return true
+					}
 					if !ok || pn.Imported().Path() != "time" {
 						return true
 					}
@@ -344,13 +356,16 @@ func main() {
 				nFP++
 			}
 
-			if timeFiles[f] {
-				// the file may have used package time for the clock only
+			for _, pkgPath := range []string{"time", "runtime"} {
+				if (pkgPath == "time" && !timeFiles[f]) || (pkgPath == "runtime" && !runtimeFiles[f]) {
+					continue
+				}
+				// the file may have used the package for the rewritten calls only
 				used := false
 				ast.Inspect(f, func(n ast.Node) bool {
 					if se, ok := n.(*ast.SelectorExpr); ok {
 						if x, ok := se.X.(*ast.Ident); ok {
-							if pn, ok := p.TypesInfo.Uses[x].(*types.PkgName); ok && pn.Imported().Path() == "time" {
+							if pn, ok := p.TypesInfo.Uses[x].(*types.PkgName); ok && pn.Imported().Path() == pkgPath {
 								used = true
 							}
 						}
@@ -359,11 +374,11 @@ func main() {
 				})
 				if !used {
 					for _, im := range f.Imports {
-						if im.Path.Value == `"time"` {
+						if im.Path.Value == `"`+pkgPath+`"` {
 							if im.Name != nil {
-								astutil.DeleteNamedImport(p.Fset, f, im.Name.Name, "time")
+								astutil.DeleteNamedImport(p.Fset, f, im.Name.Name, pkgPath)
 							} else {
-								astutil.DeleteImport(p.Fset, f, "time")
+								astutil.DeleteImport(p.Fset, f, pkgPath)
 							}
 							break
 						}
